@@ -25,7 +25,7 @@ Record insts := {
   i_bulkheads : list (Z * Z); i_caches : list (list (Z * Z)) }.
 
 Record xobs := {
-  x_out : outcome; x_end : Z; x_events : list event;
+  x_out : outcome; x_start : Z; x_end : Z; x_events : list event;
   x_state : list (list Z) * list (list (Z * Z)) }.
 
 (* model observation plus the schedule-dependence / fuel flag *)
@@ -61,7 +61,7 @@ Definition run_request (now : Z) (b : list (bcfg * bstate (S := stats))) (l : li
   let w0 := fresh_world t0 (match q_ext q with Some (t, e) => Some (t0 + t, e) | None => None end) (q_key q) b l k c (q_script q) in
   let '(r, w1) := execute (fuel_of q) (q_stack q) w0 in
   let o := if q_run q then (0, pr_err r) else pr_out r in
-  ({| x_out := o; x_end := w_now w1; x_events := filter (lsn_keeps (q_lsn q)) (rev (w_trace w1)); x_state := pub_state w1 |}, w1).
+  ({| x_out := o; x_start := t0; x_end := w_now w1; x_events := filter (lsn_keeps (q_lsn q)) (rev (w_trace w1)); x_state := pub_state w1 |}, w1).
 
 Fixpoint any_flagged (now : Z) (b : list (bcfg * bstate (S := stats))) (l : list (lcfg * Z * lstate))
     (k : list (Z * Z)) (c : list (list (Z * Z))) (qs : list request) : bool :=
@@ -123,7 +123,7 @@ Definition state_eqb (a b : list (list Z) * list (list (Z * Z))) : bool :=
 
 (* model events of kinds the harness does not observe for this entry point are dropped nowhere: the logs must align *)
 Definition xobs_eqb (withexec : bool) (m o : xobs) : bool :=
-  outcome_eqb (x_out m) (x_out o) && (x_end m =? x_end o) && all2 (event_eqb withexec) (x_events m) (x_events o)
+  outcome_eqb (x_out m) (x_out o) && (x_start m =? x_start o) && (x_end m =? x_end o) && all2 (event_eqb withexec) (x_events m) (x_events o)
   && state_eqb (x_state m) (x_state o).
 
 Fixpoint hist_eqb (qs : list request) (m o : list xobs) : bool :=
